@@ -21,7 +21,8 @@ import (
 func TestMain(m *testing.M) { run.Main(m) }
 
 // Case: Mode "ring" (closed integer ring + integer point), "line" (integer
-// polyline + point) or "linefloat" (float polyline + point).
+// polyline + point), "linefloat" (float polyline + point) or "ringfloat"
+// (closed ring of arbitrary finite doubles + point PF).
 type Case struct {
 	Mode  string        `json:"mode"`
 	Class string        `json:"class,omitempty"`
@@ -29,6 +30,7 @@ type Case struct {
 	P     [2]int64      `json:"p,omitempty"`
 	LineF [][2]model.F  `json:"linef,omitempty"`
 	PF    [2]model.F    `json:"pf,omitempty"`
+	RingF [][2]model.F  `json:"ringf,omitempty"`
 }
 
 func cross(a, b, p [2]int64) int64 {
@@ -101,7 +103,115 @@ func checkRing(p [2]int64, ring [][2]int64, l geom.Layout, what string) error {
 	if in := xy.IsPointInRing(l, pc, flat); in != (want != location.Exterior) {
 		return fmt.Errorf("%s: IsPointInRing(%v, p=%v, ring=%v) = %v, exact location %v", what, l, p, ring, in, want)
 	}
+	// the same backing array refilled with another ring (the ring moved clear of its
+	// old envelope) and queried again: nothing may be remembered about the array
+	lo, hi := ring[0], ring[0]
+	for _, q := range ring {
+		lo = [2]int64{min(lo[0], q[0]), min(lo[1], q[1])}
+		hi = [2]int64{max(hi[0], q[0]), max(hi[1], q[1])}
+	}
+	d := [2]int64{hi[0] - lo[0] + 2, -(hi[1] - lo[1] + 3)}
+	s := l.Stride()
+	for i := range ring {
+		flat[i*s] += float64(d[0])
+		flat[i*s+1] += float64(d[1])
+	}
+	pc[0] += float64(d[0])
+	pc[1] += float64(d[1])
+	if got := xy.LocatePointInRing(l, pc, flat); got != want {
+		return fmt.Errorf("%s: the ring's array refilled with the ring moved by %v: LocatePointInRing(%v, p=%v, ring=%v) = %v, exact %v", what, d, l, pc[:2], flat, got, want)
+	}
 	return nil
+}
+
+func pts(ring [][2]model.F) []exact.P2 {
+	out := make([]exact.P2, len(ring))
+	for i, q := range ring {
+		out[i] = exact.Pt(q[0].V(), q[1].V())
+	}
+	return out
+}
+
+func locName(k int) location.Type {
+	switch k {
+	case exact.Interior:
+		return location.Interior
+	case exact.Boundary:
+		return location.Boundary
+	}
+	return location.Exterior
+}
+
+func flatRingF(ring [][2]model.F, l geom.Layout) []float64 {
+	s := l.Stride()
+	out := make([]float64, 0, len(ring)*s)
+	for i, p := range ring {
+		out = append(out, p[0].V(), p[1].V())
+		for d := 2; d < s; d++ {
+			if (i+d)%3 == 0 {
+				out = append(out, math.NaN())
+			} else {
+				out = append(out, float64(i*31+d)*1e9)
+			}
+		}
+	}
+	return out
+}
+
+func checkRingF(p [2]model.F, ring [][2]model.F, l geom.Layout, what string, want location.Type) error {
+	pc := geom.Coord{p[0].V(), p[1].V()}
+	for d := 2; d < l.Stride(); d++ {
+		pc = append(pc, -7)
+	}
+	flat := flatRingF(ring, l)
+	if got := xy.LocatePointInRing(l, pc, flat); got != want {
+		return fmt.Errorf("%s: LocatePointInRing(%v, p=%v, ring=%v) = %v, exact %v", what, l, pc[:2], flat, got, want)
+	}
+	if in := xy.IsPointInRing(l, pc, flat); in != (want != location.Exterior) {
+		return fmt.Errorf("%s: IsPointInRing(%v, p=%v, ring=%v) = %v, exact location %v", what, l, pc[:2], flat, in, want)
+	}
+	return nil
+}
+
+// variantsF: reversed, rotations and duplicated vertices of a float ring (at most 8 each).
+func variantsF(ring [][2]model.F) []struct {
+	name string
+	ring [][2]model.F
+} {
+	type v = struct {
+		name string
+		ring [][2]model.F
+	}
+	var out []v
+	n := len(ring) - 1
+	rev := make([][2]model.F, len(ring))
+	for i := range ring {
+		rev[i] = ring[len(ring)-1-i]
+	}
+	out = append(out, v{"reversed", rev})
+	step := 1
+	if n > 5 {
+		step = n / 5
+	}
+	for r := 1; r < n; r += step {
+		rot := make([][2]model.F, 0, len(ring))
+		for i := 0; i < n; i++ {
+			rot = append(rot, ring[(i+r)%n])
+		}
+		rot = append(rot, rot[0])
+		out = append(out, v{fmt.Sprintf("rotated by %d", r), rot})
+	}
+	for d := 0; d < n; d += step {
+		dup := make([][2]model.F, 0, len(ring)+1)
+		for i, p := range ring {
+			dup = append(dup, p)
+			if i == d {
+				dup = append(dup, p)
+			}
+		}
+		out = append(out, v{fmt.Sprintf("vertex %d duplicated", d), dup})
+	}
+	return out
 }
 
 type variant struct {
@@ -155,7 +265,7 @@ func genRingCase(t *rapid.T) Case {
 	if rapid.Bool().Draw(t, "nooff") {
 		off = [2]int64{}
 	}
-	n := rapid.IntRange(3, 12).Draw(t, "n")
+	n := rapid.IntRange(3, 20).Draw(t, "n")
 	if rapid.IntRange(0, 49).Draw(t, "long") == 0 {
 		n = rapid.IntRange(60, 300).Draw(t, "nlong") // sizes across any chunking or stack constant
 	}
@@ -273,12 +383,124 @@ func genLineFloat(t *rapid.T) Case {
 	return Case{Mode: "linefloat", LineF: line, PF: [2]model.F{model.Of(px), model.Of(py)}}
 }
 
+// genRingFloat: a closed ring of finite doubles and a query point placed on, a
+// few ulps beside, or level with its edges and vertices. Magnitude classes:
+// moderate (the translation p1-p is already inexact), offset (a small shape far
+// from the origin: heavy cancellation), mixed exponents, and the two ends of the
+// float64 range where products of differences underflow or overflow.
+func genRingFloat(t *rapid.T) Case {
+	mclass := rapid.SampledFrom([]string{"moderate", "moderate", "offset", "mixed", "tiny", "huge", "fullrange"}).Draw(t, "mclass")
+	base := 0
+	switch mclass {
+	case "tiny":
+		base = rapid.SampledFrom([]int{-1074, -1060, -1030, -1022, -1000, -600, -540, -520}).Draw(t, "base")
+	case "huge":
+		base = rapid.SampledFrom([]int{500, 511, 512, 540, 1000, 1015, 1022}).Draw(t, "base")
+	}
+	ox, oy := 0.0, 0.0
+	if mclass == "offset" {
+		ox = math.Ldexp(float64(rapid.IntRange(-1000, 1000).Draw(t, "ox")), rapid.IntRange(10, 40).Draw(t, "oxe"))
+		oy = math.Ldexp(float64(rapid.IntRange(-1000, 1000).Draw(t, "oy")), rapid.IntRange(10, 40).Draw(t, "oye"))
+	}
+	fin := func(v float64) float64 {
+		switch {
+		case math.IsNaN(v):
+			return 0
+		case math.IsInf(v, 0):
+			return math.Copysign(math.MaxFloat64, v)
+		}
+		return v
+	}
+	ord := func(l string, o float64) float64 {
+		if rapid.IntRange(0, 15).Draw(t, l+"z") == 0 {
+			return fin(o)
+		}
+		var e int
+		switch mclass {
+		case "moderate", "offset":
+			e = rapid.IntRange(-6, 6).Draw(t, l+"e")
+		case "mixed":
+			e = rapid.IntRange(-60, 60).Draw(t, l+"e")
+		case "fullrange":
+			e = rapid.IntRange(-1074, 1023).Draw(t, l+"e")
+		default:
+			e = base + rapid.IntRange(0, 1).Draw(t, l+"e")
+			if e > 1023 {
+				e = 1023
+			}
+		}
+		m := rapid.Uint64Range(0, 1<<52-1).Draw(t, l+"m")
+		if rapid.Bool().Draw(t, l+"short") {
+			m &^= 1<<40 - 1 // short mantissas: exact sums and exactly representable points on edges
+		}
+		sg := rapid.Uint64Range(0, 1).Draw(t, l+"s")
+		var v float64
+		if e < -1022 {
+			v = math.Float64frombits(sg<<63 | (1<<52|m)>>uint(-1022-e))
+		} else {
+			v = math.Float64frombits(sg<<63 | uint64(e+1023)<<52 | m)
+		}
+		return fin(o + v)
+	}
+	n := rapid.IntRange(3, 9).Draw(t, "n")
+	if rapid.IntRange(0, 49).Draw(t, "long") == 0 {
+		n = rapid.IntRange(20, 120).Draw(t, "nlong")
+	}
+	ring := make([][2]model.F, 0, n+1)
+	for i := 0; i < n; i++ {
+		q := [2]model.F{model.Of(ord("x", ox)), model.Of(ord("y", oy))}
+		if i > 0 {
+			switch rapid.IntRange(0, 7).Draw(t, "shape") {
+			case 0:
+				q[1] = ring[i-1][1]
+			case 1:
+				q[0] = ring[i-1][0]
+			case 2:
+				q = ring[rapid.IntRange(0, i-1).Draw(t, "rep")]
+			}
+		}
+		ring = append(ring, q)
+	}
+	ring = append(ring, ring[0])
+	class := rapid.SampledFrom([]string{"near-edge", "near-edge", "vertex", "vertex-level", "on-horizontal", "mix"}).Draw(t, "pclass")
+	i := rapid.IntRange(1, n).Draw(t, "edge")
+	a, b := ring[i-1], ring[i]
+	px, py := ring[rapid.IntRange(0, n-1).Draw(t, "pxof")][0].V(), ring[rapid.IntRange(0, n-1).Draw(t, "pyof")][1].V()
+	switch class {
+	case "near-edge":
+		tt := rapid.SampledFrom([]float64{0.5, 0.25, 0.75, 0, 1, 0.125, 1.0 / 3}).Draw(t, "t")
+		if rapid.Bool().Draw(t, "trand") {
+			tt = rapid.Float64Range(0, 1).Draw(t, "tv")
+		}
+		px = fin(a[0].V() + tt*(b[0].V()-a[0].V()))
+		py = fin(a[1].V() + tt*(b[1].V()-a[1].V()))
+		px = fin(nudge(px, rapid.IntRange(-3, 3).Draw(t, "nx")))
+		py = fin(nudge(py, rapid.IntRange(-3, 3).Draw(t, "ny")))
+	case "vertex":
+		px, py = a[0].V(), a[1].V()
+	case "vertex-level":
+		py = a[1].V()
+		px = fin(nudge(px, rapid.IntRange(-2, 2).Draw(t, "nx")))
+	case "on-horizontal":
+		py = a[1].V()
+		if a[1] == b[1] {
+			px = fin(a[0].V() + rapid.SampledFrom([]float64{0.5, 0, 1, -0.25, 1.25}).Draw(t, "h")*(b[0].V()-a[0].V()))
+		}
+	case "mix":
+		px = fin(nudge(px, rapid.IntRange(-2, 2).Draw(t, "nx")))
+		py = fin(nudge(py, rapid.IntRange(-2, 2).Draw(t, "ny")))
+	}
+	return Case{Mode: "ringfloat", Class: mclass + "/" + class, RingF: ring, PF: [2]model.F{model.Of(px), model.Of(py)}}
+}
+
 func genCase(t *rapid.T) Case {
-	switch rapid.IntRange(0, 9).Draw(t, "mode") {
+	switch rapid.IntRange(0, 11).Draw(t, "mode") {
 	case 0, 1:
 		return genLineCase(t)
 	case 2, 3:
 		return genLineFloat(t)
+	case 4, 5, 6, 7:
+		return genRingFloat(t)
 	}
 	return genRingCase(t)
 }
@@ -303,6 +525,25 @@ func prop(c Case) error {
 		}
 		for _, l := range layouts[1:] {
 			if err := checkRing(c.P, c.Ring, l, "layout "+l.String()); err != nil {
+				return err
+			}
+		}
+		return nil
+	case "ringfloat":
+		pe := exact.Pt(c.PF[0].V(), c.PF[1].V())
+		want := exact.Locate(pe, pts(c.RingF))
+		if err := checkRingF(c.PF, c.RingF, geom.XY, "ring", locName(want)); err != nil {
+			return err
+		}
+		for li, vr := range variantsF(c.RingF) {
+			// the even-odd location does not depend on direction, start vertex or repeated
+			// vertices; the oracle itself is re-evaluated on the first two variants only
+			if li < 2 {
+				if got := exact.Locate(pe, pts(vr.ring)); got != want {
+					return fmt.Errorf("harness inconsistency: exact location of variant %q is %v, of the ring %v", vr.name, got, want)
+				}
+			}
+			if err := checkRingF(c.PF, vr.ring, layouts[(li+len(c.RingF))%len(layouts)], vr.name, locName(want)); err != nil {
 				return err
 			}
 		}
@@ -402,6 +643,13 @@ func classify(c Case) ([]string, bool) {
 			nt = true
 		}
 		return cl, nt
+	case "ringfloat":
+		loc := locName(exact.Locate(exact.Pt(c.PF[0].V(), c.PF[1].V()), pts(c.RingF)))
+		cl = append(cl, "floc:"+loc.String(), "fpoint:"+c.Class)
+		if len(c.RingF) > 20 {
+			cl = append(cl, "long-float-ring")
+		}
+		return cl, true
 	case "line":
 		on := false
 		for i := 1; i < len(c.Ring); i++ {
